@@ -60,6 +60,15 @@ pub struct Job {
     pub n: u64,
     /// also produce WASM bytes
     pub wasm: bool,
+    /// interner operations (= scheduling points) performed before the job starts: shifts the
+    /// job against the others by more than random scheduling diffuses on its own
+    #[serde(default)]
+    pub stagger: u32,
+    /// run the compiled program through a `LocalBufferDriver` of its own instead of calling the VM
+    /// directly: Some(0) = `init(rt, None)` (default rate), Some(sr) = `init(rt, Some(sr))`; two
+    /// `play()` blocks of `n` samples with an interner operation (= scheduling point) in between
+    #[serde(default)]
+    pub driver: Option<u32>,
 }
 
 #[derive(Clone, Debug, Serialize, Deserialize, PartialEq)]
@@ -142,8 +151,18 @@ fn macro_file_plugin() -> Box<dyn mimium_lang::plugin::Plugin> {
 fn run_job(job: &Job) -> JobResult {
     let (src, path) = job.src.load();
     let r = catch_unwind(AssertUnwindSafe(|| {
+        for _ in 0..job.stagger {
+            let _ = mimium_lang::interner::ToSymbol::to_symbol(&"dsp");
+        }
         let plugins: Vec<Box<dyn mimium_lang::plugin::Plugin>> =
             if src.contains("verif_macro_file_tag") { vec![macro_file_plugin()] } else { vec![] };
+        let mut plugins = plugins;
+        let mut driver = job.driver.map(|_| {
+            use mimium_audiodriver::driver::Driver;
+            let d = mimium_audiodriver::backends::local_buffer::LocalBufferDriver::new(job.n.max(1) as usize);
+            plugins.push(Box::new(d.get_as_plugin()));
+            d
+        });
         let mut ctx = ExecContext::new(plugins.into_iter(), path, Config::default());
         match ctx.prepare_machine(&src) {
             Err(errs) => JobResult::Diagnostics(
@@ -160,6 +179,27 @@ fn run_job(job: &Job) -> JobResult {
             ),
             Ok(()) => {
                 let listing = fnv(format!("{}", ctx.get_vm().unwrap().prog).as_bytes());
+                if let Some(d) = driver.as_mut() {
+                    use mimium_audiodriver::driver::{Driver, RuntimeData, SampleRate};
+                    let point = || {
+                        let _ = mimium_lang::interner::ToSymbol::to_symbol(&"dsp");
+                    };
+                    let _ = ctx.run_main();
+                    let rt = match RuntimeData::try_from(&mut ctx) {
+                        Ok(rt) => rt,
+                        Err(e) => return JobResult::Diagnostics(vec![e.message]),
+                    };
+                    let sr = job.driver.filter(|s| *s > 0).map(SampleRate::from);
+                    d.init(rt, sr);
+                    point();
+                    let mut outputs = vec![];
+                    for _ in 0..2 {
+                        d.play();
+                        outputs.extend(d.get_generated_samples().iter().map(|x| x.to_bits()));
+                        point();
+                    }
+                    return JobResult::Ran { outputs, listing, wasm: 0 };
+                }
                 let n_out = ctx.get_iochannel_count().map(|io| io.output as usize).unwrap_or(0);
                 let n_in = ctx.get_iochannel_count().map(|io| io.input as usize).unwrap_or(0);
                 let vm = ctx.get_vm_mut().unwrap();
@@ -464,9 +504,21 @@ fn gen_special_of(r: &mut Rng, which: u64) -> String {
         // staged program whose main-stage `let` has several sibling nested tuple patterns (each
         // sibling gets a generated temporary name during staging translation)
         5 => {
+            // several such lets in a row widen the window in which another job's entry into the
+            // staging translation can fall between two sibling temporaries of one pattern
             let v: Vec<String> = (0..8).map(|_| format!("{:.1}", r.range(1, 9) as f64)).collect();
+            let lets = r.range(1, 10);
+            let mut body = String::new();
+            let mut sum = String::from("0.0");
+            for j in 0..lets {
+                body.push_str(&format!(
+                    "  let ((a{j}, b{j}), (c{j}, d{j}), (e{j}, f{j}), (g{j}, h{j})) = gen{m}({j}.0)\n  let s{j} = ((((((a{j} * 10.0 + b{j}) * 10.0 + c{j}) * 10.0 + d{j}) * 10.0 + e{j}) * 10.0 + f{j}) * 10.0 + g{j}) * 10.0 + h{j}\n",
+                    m = w[0]
+                ));
+                sum.push_str(&format!(" + s{j} * {}.0", j + 1));
+            }
             format!(
-                "#stage(macro)\nfn one{m}(){{\n  `{{ 1.0 }}\n}}\n#stage(main)\nfn gen{m}(){{\n  (({}, {}), ({}, {}), ({}, {}), ({}, {}))\n}}\nfn dsp(){{\n  let ((a, b), (c, d), (e, f), (g, h)) = gen{m}()\n  (((((((a * 10.0 + b) * 10.0 + c) * 10.0 + d) * 10.0 + e) * 10.0 + f) * 10.0 + g) * 10.0 + h) * one{m}!()\n}}\n",
+                "#stage(macro)\nfn one{m}(){{\n  `{{ 1.0 }}\n}}\n#stage(main)\nfn gen{m}(k){{\n  (({}, {} + k), ({}, {}), ({} + k, {}), ({}, {}))\n}}\nfn dsp(){{\n{body}  ({sum}) * one{m}!()\n}}\n",
                 v[0], v[1], v[2], v[3], v[4], v[5], v[6], v[7],
                 m = w[0]
             )
@@ -574,6 +626,8 @@ fn gen_scenario(seed: u64) -> Scenario {
             src,
             n: *r.pick(&[1u64, 2, 8, 32]),
             wasm: r.chance(1, 5),
+            stagger: 0,
+            driver: None,
         });
     }
     // jobs that include one generated library file (never seen by this process before)
@@ -598,6 +652,37 @@ fn gen_scenario(seed: u64) -> Scenario {
                 "include(\"./{name}\")\nfn dsp(){{\n  libvalue() * 2.0 + {:.1}\n}}\n",
                 (i * 3) as f64
             ));
+        }
+    }
+    // family: every job plays a program that reads `samplerate` through an audio driver of its
+    // own, each driver initialised with another rate
+    let mut r_drv = root.sub("driver");
+    if r_drv.chance(1, 6) {
+        libs.clear();
+        for j in jobs.iter_mut() {
+            let k = r_drv.range(1, 9) as f64;
+            j.src = Src::Text(match r_drv.below(3) {
+                0 => format!("fn dsp(){{\n  samplerate / {k:?} + now\n}}\n"),
+                1 => format!("fn ph(f){{\n  (self + f / samplerate) % 1.0\n}}\nfn dsp(){{\n  ph({k:?} * 1000.0)\n}}\n"),
+                _ => format!("let sr0 = samplerate\nfn dsp(){{\n  sr0 * {k:?} - samplerate + now\n}}\n"),
+            });
+            j.wasm = false;
+            j.driver = Some(*r_drv.pick(&[0u32, 0, 22050, 44100, 48000, 96000]));
+        }
+    }
+    if r_cfg.chance(1, 2) {
+        let mut r_st = root.sub("stagger");
+        for j in jobs.iter_mut() {
+            // a job is some 3e5 interner operations long and its compiler phases start tens of
+            // thousands of operations apart from another program's; random scheduling alone
+            // diffuses the relative position of two threads by a few hundred operations only
+            j.stagger = match r_st.below(5) {
+                0 => 0,
+                1 => r_st.below(64) as u32,
+                2 => r_st.below(2048) as u32,
+                3 => r_st.below(16384) as u32,
+                _ => r_st.below(65536) as u32,
+            };
         }
     }
     Scenario {
@@ -712,6 +797,19 @@ fn main() {
     let persist = |w: u64| format!("/verif/replays/C19/.schedules-w{w}");
     match cmd {
         "gen" => println!("{}", serde_json::to_string_pretty(&gen_scenario(args[3].parse().unwrap())).unwrap()),
+        // gen-family <template> <seed> <jobs> <iterations>: a scenario whose jobs are all instances
+        // of one special template (for sensitivity experiments)
+        "gen-family" => {
+            let mut sc = gen_scenario(args[3].parse().unwrap());
+            let mut r = Rng::new(sc.seed).sub("family");
+            let t: u64 = args[2].parse().unwrap();
+            sc.libs.clear();
+            sc.jobs = (0..args[4].parse::<usize>().unwrap())
+                .map(|_| Job { src: Src::Text(gen_special_of(&mut r, t)), n: 2, wasm: false, driver: None, stagger: r.below(args.get(6).and_then(|s| s.parse().ok()).unwrap_or(1)) as u32 })
+                .collect();
+            sc.iterations = args[5].parse().unwrap();
+            println!("{}", serde_json::to_string_pretty(&sc).unwrap());
+        }
         "worker" => {
             let base: u64 = args[3].parse().unwrap();
             let w: u64 = args[4].parse().unwrap();
